@@ -54,8 +54,9 @@ Notation run_ops := (Inv.run_ops T tab_el tab_en check_fn LATEST root_attrs).
 Section Region.
 Variable P : id -> Prop.
 Variable PM : N -> Prop.
-Notation irp := (irp P PM).
-Notation irpq := (irpq P PM).
+Variable PF : N -> Prop.
+Notation irp := (irp P PM PF).
+Notation irpq := (irpq P PM PF).
 
 Lemma irp_welem c : irpq (fun i => ~ P i) c -> irp (welem c).
 Proof. intros H. unfold welem. eapply irpq_bind; [exact H|]. intros a _. apply irpq_ret. exact I. Qed.
@@ -96,7 +97,7 @@ Proof.
 Qed.
 
 Theorem independent_history l : forall w w',
-  Sealed P PM w -> Forall (op_apart P PM) l -> run_ops l w = Val w' -> Sealed P PM w' /\ Same P PM w w'.
+  Sealed P PM PF w -> Forall (op_apart P PM) l -> run_ops l w = Val w' -> Sealed P PM PF w' /\ Same P PM PF w w'.
 Proof.
   induction l as [|o l IH]; intros w w' S HF H; cbn [Inv.run_ops] in H.
   - injection H as <-. split; [exact S|apply Same_refl].
@@ -147,12 +148,13 @@ Qed.
 Theorem Sealed_of_TreeInv w b xb :
   TreeInv w -> nth_opt (w_models w) (N.to_nat b) = Some xb ->
   IndexApart w (Sub w (m_root xb)) b ->
-  Sealed (Sub w (m_root xb)) (fun m => m = b) w.
+  (forall f, In f (m_files xb) -> exists fl, nth_opt (w_files w) (N.to_nat f) = Some fl) ->
+  Sealed (Sub w (m_root xb)) (fun m => m = b) (fun f => In f (m_files xb)) w.
 Proof.
-  intros (C & (Hf & HR)) Hb HI. destruct (root_of_model w b xb C Hb) as (Hroots & rn & Hrn & Hrp).
+  intros (C & (Hf & HR)) Hb HI HF. destruct (root_of_model w b xb C Hb) as (Hroots & rn & Hrn & Hrp).
   assert (Hnotkid : forall p, ~ lists w p (m_root xb)).
   { intros p Hl. destruct (c_up w C _ _ Hl) as (n & Hn & Hp). congruence. }
-  split; [|split; [|split]].
+  split; [|split; [|split; [|split; [|exact HF]]]].
   - intros i Hi. apply (c_alloc w C). eapply Sub_alloc; eauto. exists rn. exact Hrn.
   - intros i n Hi Hn. split; [|split].
     + intros c Hc HS. assert (Hl : lists w i c). { exists n. split; [exact Hn|]. apply in_elems_c. exact Hc. }
@@ -175,32 +177,33 @@ Qed.
 (* what Same says about one model b whose tree is the protected region *)
 Lemma Same_model w w' b xb :
   nth_opt (w_models w) (N.to_nat b) = Some xb ->
-  Same (Sub w (m_root xb)) (fun m => m = b) w w' ->
+  Same (Sub w (m_root xb)) (fun m => m = b) (fun f => In f (m_files xb)) w w' ->
   nth_opt (w_models w') (N.to_nat b) = Some xb /\
-  (forall k fl, f_model fl = b -> (nth_opt (w_files w') k = Some fl <-> nth_opt (w_files w) k = Some fl)) /\
+  (forall f, In f (m_files xb) -> nth_opt (w_files w') (N.to_nat f) = nth_opt (w_files w) (N.to_nat f)) /\
   (forall x, Sub w (m_root xb) x -> w_nodes w' x = w_nodes w x) /\
   (forall x, Sub w' (m_root xb) x <-> Sub w (m_root xb) x).
 Proof.
-  intros Hb (Hn & Hm & Hf). split; [rewrite (Hm b eq_refl); exact Hb|]. split; [|split; [exact Hn|apply Sub_same; exact Hn]].
-  intros k fl Hfl. destruct (Hf k) as [E|(A & B)]; [rewrite E; tauto|].
-  split; intros H; exfalso; [exact (B _ H Hfl)|exact (A _ H Hfl)].
+  intros Hb (Hn & Hm & Hf). split; [rewrite (Hm b eq_refl); exact Hb|]. split; [exact Hf|].
+  split; [exact Hn|apply Sub_same; exact Hn].
 Qed.
 
 (* INDEPENDENCE, every operation: an operation none of whose handles lies in the tree of model b, and which does not
-   address b by number, leaves b alone *)
+   address b by number, leaves b alone: its record (root, file list, index maps), the records of its files, every node
+   of its tree, its reachable set *)
 Theorem independent_all o w r w' b xb :
   TreeInv w -> nth_opt (w_models w) (N.to_nat b) = Some xb ->
   IndexApart w (Sub w (m_root xb)) b ->
+  (forall f, In f (m_files xb) -> exists fl, nth_opt (w_files w) (N.to_nat f) = Some fl) ->
   (forall i, In i (op_handles o) -> ~ Sub w (m_root xb) i) -> (forall m, In m (op_models o) -> m <> b) ->
   run o w = Val (r, w') ->
   nth_opt (w_models w') (N.to_nat b) = Some xb /\
-  (forall k fl, f_model fl = b -> (nth_opt (w_files w') k = Some fl <-> nth_opt (w_files w) k = Some fl)) /\
+  (forall f, In f (m_files xb) -> nth_opt (w_files w') (N.to_nat f) = nth_opt (w_files w) (N.to_nat f)) /\
   (forall x, Sub w (m_root xb) x -> w_nodes w' x = w_nodes w x) /\
   (forall x, Sub w' (m_root xb) x <-> Sub w (m_root xb) x) /\
   IndexApart w' (Sub w' (m_root xb)) b.
 Proof.
-  intros HT Hb HI Hh Hm H. pose proof (Sealed_of_TreeInv w b xb HT Hb HI) as S.
-  destruct (irp_run_op _ _ o (conj Hh Hm) _ _ _ S H) as (S' & Sm & _).
+  intros HT Hb HI HF Hh Hm H. pose proof (Sealed_of_TreeInv w b xb HT Hb HI HF) as S.
+  destruct (irp_run_op _ _ _ o (conj Hh Hm) _ _ _ S H) as (S' & Sm & _).
   destruct (Same_model w w' b xb Hb Sm) as (A & B & C & D). split; [exact A|]. split; [exact B|]. split; [exact C|].
   split; [exact D|]. intros m x Hmb Hx. destruct (proj1 (proj2 (proj2 S')) m x Hmb Hx) as (_ & H1 & H2).
   split; [intros p j Hin HS; apply D in HS; exact (H1 p j Hin HS)|intros p l j Hin Hj HS; apply D in HS; exact (H2 p l j Hin Hj HS)].
@@ -210,15 +213,16 @@ Qed.
 Theorem independent_histories l w w' b xb :
   TreeInv w -> nth_opt (w_models w) (N.to_nat b) = Some xb ->
   IndexApart w (Sub w (m_root xb)) b ->
+  (forall f, In f (m_files xb) -> exists fl, nth_opt (w_files w) (N.to_nat f) = Some fl) ->
   Forall (op_apart (Sub w (m_root xb)) (fun m => m = b)) l ->
   run_ops l w = Val w' ->
   nth_opt (w_models w') (N.to_nat b) = Some xb /\
-  (forall k fl, f_model fl = b -> (nth_opt (w_files w') k = Some fl <-> nth_opt (w_files w) k = Some fl)) /\
+  (forall f, In f (m_files xb) -> nth_opt (w_files w') (N.to_nat f) = nth_opt (w_files w) (N.to_nat f)) /\
   (forall x, Sub w (m_root xb) x -> w_nodes w' x = w_nodes w x) /\
   (forall x, Sub w' (m_root xb) x <-> Sub w (m_root xb) x).
 Proof.
-  intros HT Hb HI HF H. pose proof (Sealed_of_TreeInv w b xb HT Hb HI) as S.
-  destruct (independent_history _ _ l _ _ S HF H) as (_ & Sm). exact (Same_model w w' b xb Hb Sm).
+  intros HT Hb HI HF HL H. pose proof (Sealed_of_TreeInv w b xb HT Hb HI HF) as S.
+  destruct (independent_history _ _ _ l _ _ S HL H) as (_ & Sm). exact (Same_model w w' b xb Hb Sm).
 Qed.
 
 End Indep.
